@@ -397,6 +397,58 @@ def items_siblings_ir(draw):
 
 
 @st.composite
+def terminal_ir(draw):
+    """Directed shape for how contexts reach joins and the end of the workflow: 2..4 chains (length 1..3)
+    that start at start tasks of their own or below a publish-free root; a transition publishes a variable
+    or nothing (so that some lineages carry only the initial context); a chain ends as a leaf, as a
+    run-time dead end (its only transition is not taken), in `noop`, or in a common join (all)."""
+    lng = draw(st.sampled_from([lang.YAQL, lang.JINJA]))
+    k = draw(st.integers(2, 4))
+    tasks = {}
+    heads, arrivals = [], []
+    site = [0]
+
+    def pub():
+        site[0] += 1
+        if draw(st.integers(0, 2)) == 0:
+            return []
+        return [[draw(st.sampled_from(POOL)), "p%d" % site[0]]]
+
+    for b in range(k):
+        ln = draw(st.integers(1, 3))
+        chain = ["c%d_%d" % (b, i) for i in range(ln)]
+        heads.append(chain[0])
+        for i, nm in enumerate(chain):
+            t = {"action": "core.act", "next": [], "input": {"who": nm}}
+            if i < ln - 1:
+                t["next"].append({"when": E(["true"], lng), "do": [chain[i + 1]], "publish": pub()})
+            else:
+                end = draw(st.sampled_from(["leaf", "leaf", "dead", "dead", "noop", "join", "join", "join"]))
+                if end == "dead":
+                    t["next"].append({"when": E(["failed"], lng), "do": ["sink"], "publish": pub()})
+                elif end == "noop":
+                    t["next"].append({"when": E(["true"], lng), "do": ["noop"], "publish": pub()})
+                elif end == "join":
+                    t["next"].append({"when": E(["true"], lng), "do": ["j"], "publish": pub()})
+                    arrivals.append(nm)
+            tasks[nm] = t
+    if any(t["next"] and t["next"][0]["do"] == ["sink"] for t in tasks.values()):
+        tasks["sink"] = {"action": "core.act", "input": {"who": "sink"}, "next": []}
+    if arrivals:
+        tasks["j"] = {"action": "core.act", "input": {"who": "j"}, "next": []}
+        if len(arrivals) >= 2:
+            tasks["j"]["join"] = "all"
+        if draw(st.booleans()):
+            tasks["j"]["next"].append({"when": E(["true"], lng), "do": ["tail"], "publish": pub()})
+            tasks["tail"] = {"action": "core.act", "input": {"who": "tail"}, "next": []}
+    if draw(st.booleans()):
+        tasks["r0"] = {"action": "core.act", "input": {"who": "r0"}, "next": [{"when": E(["true"], lng), "do": list(heads), "publish": []}]}
+    ir = {"vars": [[v, "init_" + v] for v in POOL], "tasks": tasks}
+    ir["output"] = [[v + "_out", E(["ctx", v], lng)] for v in POOL]
+    return ir
+
+
+@st.composite
 def directed_scenario(draw, ir_strategy, flags=None, controls=None, max_choices=60, p_fail=None, canceled=False):
     ir = draw(ir_strategy)
     if p_fail is None:
